@@ -8,7 +8,7 @@
    correspondence of checks/C02.py: C01_parse_core_total.  The rest of the parser is not modelled: its totality is decided by
    the enumeration of checks/C01.py on the implementation (C01_parse_partial). *)
 From Coq Require Import ZArith List Bool.
-From Ckl Require Import Prelude.PyPrelude Prelude.LexPrelude Gen.LexGen Model.LexRun Proofs.LexProofs Model.ExprParse Proofs.ExprParseTotal.
+From Ckl Require Import Prelude.PyPrelude Prelude.LexPrelude Gen.LexGen Model.LexRun Proofs.LexProofs Model.ExprParse Proofs.ExprParseTotal Proofs.ExprParseFuel.
 Import ListNotations.
 Open Scope Z_scope.
 
@@ -41,6 +41,11 @@ Print Assumptions C01_parse_core_total.
 Theorem C01_parse_core_progress : forall n ts e r, p_prim n ts = Ok e r -> (length r < length ts)%nat.
 Proof. exact p_prim_prog. Qed.
 Print Assumptions C01_parse_core_progress.
+
+(* the answer does not depend on the amount of fuel, as long as there is more of it than tokens: [parse] is a function of the token list *)
+Theorem C01_parse_core_fuel_irrelevant : forall n ts, (length ts < n)%nat -> parse_fuel n ts = parse ts.
+Proof. exact parse_fuel_irrelevant. Qed.
+Print Assumptions C01_parse_core_fuel_irrelevant.
 
 Example C01_parse_core_ex :
   parse [TInt 1; TPlus; TLP; TId 0; TLP; TInt 2; TComma; TInt 3; TRP; TRP] = Ok (EBin 0 (EInt 1) (ECall (EVar 0) [EInt 2; EInt 3])) []
